@@ -19,13 +19,13 @@ import (
 type ctxSet uint16
 
 const (
-	ctxCONN ctxSet = 1 << iota // connection worker task
-	ctxCACHE                   // cache worker task (EventSubscription.mu held)
-	ctxMQ                      // messaging goroutines (completions, event handlers, closed handler)
-	ctxHTTP                    // net/http handler goroutines
-	ctxGO                      // fresh goroutine started with `go`
-	ctxTIMER                   // timerqueue / time.AfterFunc callback
-	ctxAPI                     // exported entry points, main, init
+	ctxCONN  ctxSet = 1 << iota // connection worker task
+	ctxCACHE                    // cache worker task (EventSubscription.mu held)
+	ctxMQ                       // messaging goroutines (completions, event handlers, closed handler)
+	ctxHTTP                     // net/http handler goroutines
+	ctxGO                       // fresh goroutine started with `go`
+	ctxTIMER                    // timerqueue / time.AfterFunc callback
+	ctxAPI                      // exported entry points, main, init
 )
 
 func (s ctxSet) String() string {
@@ -161,10 +161,10 @@ func (p *Prog) contexts() *ctxInfo {
 	}
 	// worker loops and their dispatch define contexts but carry none themselves
 	special := map[string]ctxSet{
-		"(*server.wsConn).outputWorker":  ctxCONN,
-		"(*rescache.Cache).startWorker":  ctxCACHE,
-		"(*nats.Client).listener":        ctxMQ,
-		"(*nats.Client).onTimeout":       ctxTIMER,
+		"(*server.wsConn).outputWorker":   ctxCONN,
+		"(*rescache.Cache).startWorker":   ctxCACHE,
+		"(*nats.Client).listener":         ctxMQ,
+		"(*nats.Client).onTimeout":        ctxTIMER,
 		"(*rescache.Cache).mqUnsubscribe": ctxTIMER,
 	}
 	for n, c := range special {
@@ -725,7 +725,6 @@ func lockName(s int) string {
 	return "unknown"
 }
 
-
 // invokers returns the functions (fn or closures nested in it) that call the
 // function-typed parameter prm of fn, following captures.
 func invokers(fn *ssa.Function, prm *ssa.Parameter) []*ssa.Function {
@@ -772,7 +771,6 @@ func invokers(fn *ssa.Function, prm *ssa.Parameter) []*ssa.Function {
 	}
 	return out
 }
-
 
 // closuresHeld returns the closures (or functions) a value may hold,
 // following loads of local cells and of cells captured by nested closures.
